@@ -1,6 +1,6 @@
 (* Invariants of the data-sourcing transition system (model/DataSourcing.v), for every event sequence. *)
 From Coq Require Import Lia ZifyBool.
-From Verif Require Import model.DataSourcing.
+From Verif Require Import gen.DataSourcing model.DataSourcing.
 
 (* ------------------------------------------------------------------ small facts *)
 Lemma name_eqb_eq : forall a b, name_eqb a b = true <-> a = b.
@@ -604,3 +604,14 @@ Proof.
       * apply Nat.leb_le in E. rewrite app_length; cbn. destruct q; cbn in *; lia.
       * apply Nat.leb_gt in E. rewrite app_length; cbn. lia.
 Qed.
+
+
+(* the capacity the pipeline gives the actor's request receiver (translated `limit=` keyword) is the configured
+   constant (translated `_REQUEST_RECV_BUFFER_SIZE`): a fact about the code as it is now, re-checked on every run *)
+Lemma request_limit_is_configured_size : data_sourcing_request_limit = request_recv_buffer_size.
+Proof. vm_compute. reflexivity. Qed.
+
+Lemma request_burst_served : forall A (rs : list A),
+  (length rs <= Z.to_nat request_recv_buffer_size)%nat ->
+  req_burst (Z.to_nat data_sourcing_request_limit) [] rs = rs.
+Proof. intros A rs H. apply req_burst_from_empty. rewrite request_limit_is_configured_size. exact H. Qed.
